@@ -258,7 +258,7 @@ def _dom_qgauss_seq(tier, seed):
                 calls.append(("func", (a, b, rng.choice(funcs)), n, eff))
             else:
                 m = rng.randint(2, 40)
-                xs = np.cumsum([rng.choice([0.3, 1.0, 1e-7, 2.5]) for _ in range(m)]) * rng.choice([1.0, 1e-8, 1e5]) - 1.0
+                xs = np.cumsum([rng.choice([0.3, 1.0, 1e-7, 2.5]) for _ in range(m)]) * rng.choice([1.0, 1e-8, 1e-11, 1e5]) - rng.choice([0.0, 1.0])
                 ys = np.array([rng.uniform(-2, 2) for _ in range(m)])
                 calls.append(("data", (xs, ys), n, eff))
 
